@@ -13,13 +13,14 @@ INF = math.inf
 
 
 class AV:
-    __slots__ = ("lo", "hi", "kind", "member", "size", "note", "esize")
+    __slots__ = ("lo", "hi", "kind", "member", "size", "note", "esize", "opaque")
 
-    def __init__(self, lo=-INF, hi=INF, kind="unknown", member=None, size=None, note="", esize=None):
+    def __init__(self, lo=-INF, hi=INF, kind="unknown", member=None, size=None, note="", esize=None, opaque=False):
         self.lo, self.hi, self.kind, self.member, self.size, self.note, self.esize = lo, hi, kind, member, size, note, esize
+        self.opaque = opaque     # produced by a construct the analysis does not model (as opposed to an unclamped request)
 
     def copy(self, **kw):
-        a = AV(self.lo, self.hi, self.kind, self.member, self.size, self.note, self.esize)
+        a = AV(self.lo, self.hi, self.kind, self.member, self.size, self.note, self.esize, self.opaque)
         for k, v in kw.items():
             setattr(a, k, v)
         return a
@@ -45,7 +46,7 @@ def hull(a: AV, b: AV):
     member = (a.member | b.member) if (a.member is not None and b.member is not None) else None
     size = hull(a.size, b.size) if (a.size is not None and b.size is not None) else None
     esize = hull(a.esize, b.esize) if (a.esize is not None and b.esize is not None) else None
-    return AV(min(a.lo, b.lo), max(a.hi, b.hi), kind, member, size, "", esize)
+    return AV(min(a.lo, b.lo), max(a.hi, b.hi), kind, member, size, "", esize, a.opaque or b.opaque)
 
 
 TOP = AV()
@@ -172,6 +173,10 @@ class IntervalInterp:
         env.update(src)
 
     def bind(self, t, v, env):
+        if isinstance(t, ast.Subscript) and isinstance(t.value, ast.Name) and isinstance(env.get(t.value.id), AV):
+            cur = env[t.value.id]
+            env[t.value.id] = hull(cur, AV(v.lo, v.hi, cur.kind, v.member, None, "", None, v.opaque)).copy(kind=cur.kind, size=cur.size)
+            return
         if isinstance(t, ast.Name):
             for k in [k for k in env if k.startswith("$expr:") and t.id in k]:
                 del env[k]
@@ -369,6 +374,12 @@ class IntervalInterp:
         return AV()
 
     def arith(self, op, a: AV, b: AV):
+        r = self._arith(op, a, b)
+        if a.opaque or b.opaque:
+            r = r.copy(opaque=True)
+        return r
+
+    def _arith(self, op, a: AV, b: AV):
         kind = "array" if "array" in (a.kind, b.kind) else ("scalar" if a.kind == b.kind == "scalar" else "unknown")
         try:
             if isinstance(op, ast.Add):
@@ -465,13 +476,22 @@ class IntervalInterp:
             if last == "min":
                 return AV(min(v.lo for v in vs), min(v.hi for v in vs), "scalar")
             return AV(max(v.lo for v in vs), max(v.hi for v in vs), "scalar")
+        if last == "full" and len(args) >= 2:
+            v = self.ev(args[1], env)
+            return AV(v.lo, v.hi, "array", v.member)
+        if last in ("zeros", "ones", "zeros_like", "ones_like"):
+            c = 0 if last.startswith("zeros") else 1
+            return AV(c, c, "array")
+        if last in ("ceil", "floor"):
+            v = self.ev(args[0], env) if args else AV()
+            return AV(math.floor(v.lo) if not math.isinf(v.lo) else v.lo, math.ceil(v.hi) if not math.isinf(v.hi) else v.hi, "scalar", None, None, "", None, v.opaque)
         for a in args:
             self.ev(a, env)
         for k in n.keywords:
             self.ev(k.value, env)
         if base is not None:
             self.ev(base, env)
-        return AV()
+        return AV(opaque=True)
 
     def _fstring(self, js, env, query_node):
         parts = []
